@@ -93,6 +93,7 @@ impl WriteCircuitBreaker {
                     // Transition to half-open to test recovery; this request is itself a
                     // probe, so it is counted against half_open_max_calls
                     self.transition_to_half_open();
+                    verif_point!("allow:transition:half_open_call_count.fetch_add");
                     let current_calls = self.half_open_call_count.fetch_add(1, Ordering::AcqRel);
                     current_calls < self.half_open_max_calls
                 } else {
